@@ -116,6 +116,32 @@ fn oracle<T: Bits, C: ArrayLength + PartialEq>(m: &DenseMatrix<T, C>, want: &Vec
     if m.iter().len() != want.len() {
         return Err("iter().len()".into());
     }
+    // ExactSizeIterator / DoubleEndedIterator used together: the remaining length after taking rows
+    // from either end, and adaptors that rely on it (`enumerate().rev()`)
+    {
+        let n = want.len();
+        let mut it = m.iter();
+        let mut left = n;
+        for step in 0..n.min(5) {
+            let r = if step % 2 == 0 { it.next_back() } else { it.next() };
+            if r.is_none() {
+                return Err("iter(): fewer rows than rows()".into());
+            }
+            left -= 1;
+            if it.len() != left {
+                return Err(format!("iter().len() = {} after {} rows were taken from both ends, {} remain", it.len(), step + 1, left));
+            }
+        }
+        let er: Vec<(usize, u64)> = m.iter().enumerate().rev().map(|(i, r)| (i, r[0].bits())).collect();
+        let wr: Vec<(usize, u64)> = (0..n).rev().map(|i| (i, want[i][0])).collect();
+        if er != wr {
+            return Err("iter().enumerate().rev() does not pair rows with their indices".into());
+        }
+        let zr: Vec<(usize, u64)> = (0..n).zip(m.iter()).rev().map(|(i, r)| (i, r[0].bits())).collect();
+        if zr != wr {
+            return Err("(0..rows).zip(iter()).rev() does not pair rows with their indices".into());
+        }
+    }
     let size = std::mem::size_of::<T>();
     if m.stride() < C::USIZE || (m.stride() * size) % align != 0 {
         return Err(format!("stride {} (C = {}, size {}, align {})", m.stride(), C::USIZE, size, align));
